@@ -318,8 +318,8 @@ func (tp *TableParser) parseCellParagraph(p paragraphXML) parsedParagraph {
 	// Extract text from runs
 	var textParts []string
 	for _, run := range p.Runs {
-		for _, t := range run.Text {
-			textParts = append(textParts, t.Value)
+		if text := runText(run); text != "" {
+			textParts = append(textParts, text)
 		}
 	}
 	parsed.Text = strings.Join(textParts, "")
